@@ -305,11 +305,8 @@ struct Sim {
             if (L.Height(c) <= base_height) break;
             c = L.blocks.at(c).prev;
         }
-        // manual invalidation may also hit base blocks
-        for (auto& mi : manually_invalid) {
-            uint256 w = h;
-            while (!w.IsNull()) { if (w == mi) return false; w = L.blocks.at(w).prev; }
-        }
+        // manual invalidation marks (set by InvalidateBlock on the block and its then-known descendants) anywhere on the path
+        for (uint256 w = h; !w.IsNull(); w = L.blocks.at(w).prev) if (manually_invalid.count(w)) return false;
         return L.UtxoAt(h) != nullptr;
     }
     bool AllDelivered(const uint256& h)
@@ -379,7 +376,16 @@ struct Sim {
         } else if (e[0] == 'I') {
             auto h = Select(e.substr(2));
             if (!h) return;
-            if (n.Invalidate(*h)) { manually_invalid.insert(*h); invalidated_stack.push_back(*h); }
+            if (n.Invalidate(*h)) {
+                // InvalidateBlock marks the block and every descendant the node has an index entry for (full or
+                // header-only); each of them keeps its mark until a ReconsiderBlock reaches it individually
+                manually_invalid.insert(*h);
+                invalidated_stack.push_back(*h);
+                for (auto& [bh, rb] : L.blocks) {
+                    if (bh == *h || !n.index_of(bh)) continue;
+                    for (uint256 w = rb.prev; !w.IsNull(); w = L.blocks.at(w).prev) if (w == *h) { manually_invalid.insert(bh); break; }
+                }
+            }
         } else if (e[0] == 'R') {
             uint256 h;
             if (e == "R") {
@@ -391,12 +397,13 @@ struct Sim {
                 h = *sel;
             }
             n.Reconsider(h);
-            // ResetBlockFailureFlags clears the flags of the block, its ancestors and descendants
+            // ResetBlockFailureFlags clears the marks of exactly: the block, its ancestors and its descendants
+            // (a sibling branch that was marked through a common invalidated ancestor keeps its mark)
             std::vector<uint256> cleared;
             for (auto& mi : manually_invalid) {
                 bool related = false;
-                for (uint256 w = mi; !w.IsNull(); w = L.blocks.at(w).prev) if (w == h) related = true;
-                for (uint256 w = h; !w.IsNull(); w = L.blocks.at(w).prev) if (w == mi) related = true;
+                for (uint256 w = mi; !w.IsNull(); w = L.blocks.at(w).prev) if (w == h) related = true;   // mi descends from (or is) h
+                for (uint256 w = h; !w.IsNull(); w = L.blocks.at(w).prev) if (w == mi) related = true;   // mi is an ancestor of h
                 if (related) cleared.push_back(mi);
             }
             for (auto& c : cleared) manually_invalid.erase(c);
